@@ -1,4 +1,7 @@
-\* C15 negative config: the walker does not skip underscore-prefixed directories: NothingElseTouched must be violated.
+\* C15 negative configs of the skip rule (SkipRule is substituted by checks/C15.py): the walker does not skip
+\* underscore- / dot-prefixed directories: NothingElseTouched must be violated; the walker compares with HasSuffix /
+\* HasPrefix / case-insensitively instead of equality, or looks for the dot / underscore anywhere in the name:
+\* near-miss directories are skipped, SiblingEqualsSoloGeneration must be violated.
 CONSTANTS
   MaxFiles = 2
   Trees <- TreesForest
